@@ -16,10 +16,11 @@ def parseTurn (s : String) : Option Turn :=
   | e :: d :: flags =>
     match e.toNat?, parseEnd d with
     | some e, some d =>
-      if flags.all (fun f => ["bad", "brk", "cap", "unenc", "xok", "xerr"].contains f) then
+      if flags.all (fun f => ["bad", "brk", "cap", "unenc", "xok", "xerr", "both"].contains f) then
         some { emits := e, «end» := d, bad := flags.contains "bad", brk := flags.contains "brk",
                capped := flags.contains "cap", unenc := flags.contains "unenc",
-               extIn := if flags.contains "xerr" then .err else if flags.contains "xok" then .ok else .none }
+               extIn := if flags.contains "xerr" then .err else if flags.contains "xok" then .ok else .none,
+               both := flags.contains "both" }
       else none
     | _, _ => none
   | _ => none
